@@ -1,0 +1,16 @@
+//go:build verif
+
+package suggestion
+
+import (
+	"k8s.io/apimachinery/pkg/runtime"
+	"k8s.io/client-go/tools/record"
+	"sigs.k8s.io/controller-runtime/pkg/client"
+
+	"github.com/kubeflow/katib/pkg/controller.v1beta1/suggestion/composer"
+	"github.com/kubeflow/katib/pkg/controller.v1beta1/suggestion/suggestionclient"
+)
+
+func NewReconcilerForVerif(c client.Client, s *runtime.Scheme, rec record.EventRecorder, comp composer.Composer, sc suggestionclient.SuggestionClient) *ReconcileSuggestion {
+	return &ReconcileSuggestion{Client: c, Composer: comp, SuggestionClient: sc, scheme: s, recorder: rec}
+}
